@@ -30,7 +30,39 @@ fn strip_clock(v: &mut Value) {
     }
 }
 
-fn canon<T: serde::Serialize>(t: &T) -> Value { let mut v = serde_json::to_value(t).unwrap(); strip_clock(&mut v); v }
+/// What the API shows of an aggregate beyond its stored form ("agree in every respect observable through the API"):
+/// the stored form writes some values as strings (a ROA payload is a map key), the API views write them field by field.
+trait ApiView { fn api_view(&self) -> Value { Value::Null } }
+impl ApiView for CertAuth {
+    fn api_view(&self) -> Value {
+        let mut roas = serde_json::to_value(self.configured_roas()).unwrap_or(Value::Null);
+        if let Value::Array(a) = &mut roas { a.sort_by_key(|x| x.to_string()); }
+        let mut v = json!({"info": serde_json::to_value(self.as_ca_info()).unwrap_or(Value::Null), "configured_roas": roas,
+            "aspas": serde_json::to_value(self.aspas_definitions_show()).unwrap_or(Value::Null),
+            "bgpsec": serde_json::to_value(self.bgpsec_definitions_show()).unwrap_or(Value::Null)});
+        strip_clock(&mut v);
+        // lists in these views come out of hash maps (children, parents, ...): their order carries no meaning
+        fn sort_lists(v: &mut Value) {
+            match v {
+                Value::Array(a) => { for x in a.iter_mut() { sort_lists(x); } a.sort_by_key(|x| x.to_string()); }
+                Value::Object(m) => for x in m.values_mut() { sort_lists(x); },
+                _ => {}
+            }
+        }
+        sort_lists(&mut v);
+        v
+    }
+}
+impl ApiView for TrustAnchorProxy {}
+impl ApiView for TrustAnchorSigner {}
+impl ApiView for RepositoryAccess {}
+
+fn canon<T: serde::Serialize + ApiView>(t: &T) -> Value {
+    let mut v = serde_json::to_value(t).unwrap(); strip_clock(&mut v);
+    let api = t.api_view();
+    if !api.is_null() { v["__api_view"] = api; }
+    v
+}
 
 /// Makes the next write to the published-object store (`ca_objects`) of an armed instance fail: the CA's pre-save
 /// listener then refuses a command the aggregate itself accepted. One process-global probe; instances are told
@@ -85,7 +117,7 @@ fn absorb_commands(sys: &Sys, ns: &Ident, scope: &str, t: &mut Tracked) {
 
 /// Fresh-store checks for one aggregate type. Returns (fresh==live, snapshot==init, load_failed, loaded version).
 fn fresh_checks<A: Aggregate>(sys: &Sys, ns: &Ident, handle: &str, live: Option<Value>, t: &mut Tracked, rng: &mut Rng) -> (bool, bool, bool, u64)
-where A: serde::Serialize {
+where A: serde::Serialize + ApiView {
     let h = MyHandle::from_str(handle).unwrap();
     let mut failed = false;
     let mut load = |t: &mut Tracked| -> Option<Value> {
@@ -98,6 +130,17 @@ where A: serde::Serialize {
     };
     let as_is = load(t);
     let eq_live = match (&as_is, &live) { (Some(a), Some(l)) => a == l, (Some(_), None) => true, _ => false };
+    if !eq_live && std::env::var("KV_DEBUG").is_ok() { if let (Some(x), Some(y)) = (&as_is, &live) {
+        fn diff(p: String, x: &Value, y: &Value, out: &mut Vec<String>) {
+            if out.len() > 8 { return }
+            match (x, y) {
+                (Value::Object(a), Value::Object(b)) => { for k in a.keys().chain(b.keys().filter(|k| !a.contains_key(*k))) { let (u, v) = (a.get(k).unwrap_or(&Value::Null), b.get(k).unwrap_or(&Value::Null)); if u != v { diff(format!("{p}/{k}"), u, v, out); } } }
+                (Value::Array(a), Value::Array(b)) if a.len() == b.len() => { for (i, (u, v)) in a.iter().zip(b.iter()).enumerate() { if u != v { diff(format!("{p}/{i}"), u, v, out); } } }
+                _ => out.push(format!("{p}: fresh {} vs live {}", x.to_string().chars().take(160).collect::<String>(), y.to_string().chars().take(160).collect::<String>())),
+            }
+        }
+        let mut o = Vec::new(); diff(String::new(), x, y, &mut o); eprintln!("fresh != live ({handle}): {o:#?}");
+    } }
     let mut eq_snap = true;
     if rng.chance(60) {
         // write a snapshot at this point of the history through a fresh store, then load with it
